@@ -17,6 +17,9 @@ fn cfgs() -> Vec<Entry> {
     #[cfg(feature = "alloc")] { c!(v, false,"general",H2D,Heap,dyn Cloneable); }
     #[cfg(feature = "alloc")] { c!(v, false,"general",W8,Heap,dyn Cloneable); }
     #[cfg(feature = "alloc")] { c!(v, false,"general",W8A4,Heap,dyn Cloneable); }
+    #[cfg(feature = "alloc")] { c!(v, false,"general",B1D,Heap,dyn Cloneable); }
+    #[cfg(feature = "alloc")] { c!(v, false,"general",T3D,Heap,dyn Cloneable); }
+    #[cfg(feature = "alloc")] { c!(v, false,"general",A32D,Heap,dyn Cloneable); }
     v
 }
 fn main() { anyvec_mc::main_with(cfgs) }
